@@ -233,6 +233,14 @@ class Seams:
         self._set(ns.cloud.BaseCloud, "DEVICE_ID", rnd.bytes("cloud_device_id", 8).hex())
         # process-global state: a run is a fresh process
         _reset_class_state()
+        # every clock a (changed) library might read follows the simulation: time.monotonic()/perf_counter() are
+        # the loop's virtual time, time.time() the simulated wall clock (restored on exit)
+        import time as _time
+        loop = self.clock.loop
+        self._set(_time, "monotonic", lambda: loop.time())
+        self._set(_time, "perf_counter", lambda: loop.time())
+        self._set(_time, "monotonic_ns", lambda: int(loop.time() * 1e9))
+        self._set(_time, "time", lambda: self.clock.timestamp())
         self._set(ns.command.Command, "_message_id", self.msg_id_start)
         D = ns.discover.Discover
         for name, val in (("_lock", None), ("_cloud", None), ("_account", None), ("_password", None),
